@@ -494,6 +494,10 @@ struct Recovered {
     len: usize,
     /// ownership / counter problems of the recovered store (C05), before it is closed again
     partition: Vec<String>,
+    /// standing invariants of a store at rest that fail right after the recovery (props, what)
+    inv: Vec<(Vec<&'static str>, String)>,
+    /// the free list recovery rebuilt
+    free: Vec<(u64, u64)>,
 }
 
 fn recover(path: &str, blocks: u64) -> Result<Recovered, String> {
@@ -514,8 +518,10 @@ fn recover(path: &str, blocks: u64) -> Result<Recovered, String> {
             }
             let len = store.len();
             let partition = partition_errors(&store, blocks, "recovered store");
+            let inv = feox_verif_harness::inv::quiescent(&store).into_iter().map(|f| (f.props.to_vec(), f.what)).collect();
+            let free = store.verif_free_runs();
             drop(store);
-            Ok(Recovered { contents, len, partition })
+            Ok(Recovered { contents, len, partition, inv, free })
         }
     }
 }
@@ -632,6 +638,11 @@ fn explore_crashes(rng: &mut Rng, out: &mut Out, rec: &Arc<Recorder>, w: &Worklo
                     for e in rv.partition.iter().take(1) {
                         out.fail("C05", format!("{} — crash after event {} ({}), un-synced writes: {}", e, upto, describe(trace, upto), vname), &keep);
                     }
+                    for (props, what) in rv.inv.iter().take(2) {
+                        for p in props {
+                            out.fail(p, format!("recovered store: {} — crash after event {} ({}), un-synced writes: {}", what, upto, describe(trace, upto), vname), &keep);
+                        }
+                    }
                     if let Some(why) = check_window(w, &win, rv) {
                         let prop = if why.contains("OLDER") || why.contains("absent") { "C02" } else { "C03" };
                         out.fail(prop, format!("{} — crash after event {} ({}), un-synced writes: {}", why, upto, describe(trace, upto), vname), &keep);
@@ -639,7 +650,8 @@ fn explore_crashes(rng: &mut Rng, out: &mut Out, rec: &Arc<Recorder>, w: &Worklo
                     // C04: open again without writing: same contents
                     let again = recover(&p, w.blocks);
                     match again {
-                        Ok(a) if a.contents == rv.contents => {}
+                        Ok(a) if a.contents == rv.contents && a.free == rv.free => {}
+                        Ok(a) if a.contents == rv.contents => out.fail("C04", format!("a second recovery of the same device rebuilds a different free list: first {:?}, second {:?} (crash after event {}, {})", rv.free, a.free, upto, vname), &keep),
                         Ok(_) => out.fail("C04", format!("second open of a recovered image exposes different contents (crash after event {}, {})", upto, vname), &keep),
                         Err(e) => out.fail("C04", format!("second open of a recovered image fails: {}", e), &keep),
                     }
